@@ -65,3 +65,283 @@ theorem filter_contains_of_sublist {D o : List Name} (hs : D.Sublist o) (hnd : o
     exact fun _ => hx
 
 end Mxl
+
+namespace Mxl
+
+theorem sublist_flatMap {α β} (f : α → List β) {l1 l2 : List α} (h : l1.Sublist l2) :
+    (l1.flatMap f).Sublist (l2.flatMap f) := by
+  induction h with
+  | slnil => exact List.Sublist.refl _
+  | cons a _ ih =>
+    simp only [List.flatMap_cons]
+    exact List.Sublist.trans ih (List.sublist_append_right _ _)
+  | cons_cons a _ ih =>
+    simp only [List.flatMap_cons]
+    exact List.Sublist.append (List.Sublist.refl _) ih
+
+theorem flatMap_congr' {α β} (f g : α → List β) (l : List α) (h : ∀ x ∈ l, f x = g x) :
+    l.flatMap f = l.flatMap g := by
+  induction l with
+  | nil => rfl
+  | cons x xs ih =>
+    simp only [List.flatMap_cons]
+    rw [h x (by simp), ih (fun y hy => h y (List.mem_cons_of_mem _ hy))]
+
+/-- in a duplicate-free concatenation of provided-name lists, a name determines its provider -/
+theorem nodup_flatMap_inj {f : Name → List Name} :
+    ∀ (ks : List Name), (ks.flatMap f).Nodup → ∀ k ∈ ks, ∀ k' ∈ ks, ∀ p, p ∈ f k → p ∈ f k' → k = k' := by
+  intro ks
+  induction ks with
+  | nil => intro _ k hk; cases hk
+  | cons x xs ih =>
+    intro hnd k hk k' hk' p hp hp'
+    simp only [List.flatMap_cons] at hnd
+    obtain ⟨_, h2, h3⟩ := List.nodup_append.mp hnd
+    rcases List.mem_cons.mp hk with rfl | hkx
+    · rcases List.mem_cons.mp hk' with rfl | hkx'
+      · rfl
+      · exact absurd rfl (h3 p hp p (List.mem_flatMap.mpr ⟨k', hkx', hp'⟩))
+    · rcases List.mem_cons.mp hk' with rfl | hkx'
+      · exact absurd rfl (h3 p hp' p (List.mem_flatMap.mpr ⟨k, hkx, hp⟩))
+      · exact ih h2 k hkx k' hkx' p hp hp'
+
+theorem mem_keys_omInsert {β} (m : List (Name × β)) (k x : Name) (v : β) :
+    x ∈ omKeys (omInsert m k v) ↔ x = k ∨ x ∈ omKeys m := by
+  induction m with
+  | nil => simp [omInsert, omKeys]
+  | cons y ys ih =>
+    obtain ⟨k', v'⟩ := y
+    unfold omInsert
+    by_cases hk : k' = k
+    · subst hk; simp [omKeys]
+    · have : (k' == k) = false := by simpa using hk
+      simp only [this, Bool.false_eq_true, if_false]
+      simp only [omKeys, List.map_cons, List.mem_cons] at ih ⊢
+      rw [ih]
+      constructor
+      · rintro (h | h | h)
+        · exact Or.inr (Or.inl h)
+        · exact Or.inl h
+        · exact Or.inr (Or.inr h)
+      · rintro (h | h | h)
+        · exact Or.inr (Or.inl h)
+        · exact Or.inl h
+        · exact Or.inr (Or.inr h)
+
+theorem mem_keys_omUnion {β} (a b : List (Name × β)) (x : Name) :
+    x ∈ omKeys (omUnion a b) ↔ x ∈ omKeys a ∨ x ∈ omKeys b := by
+  unfold omUnion
+  induction b generalizing a with
+  | nil => simp [omKeys]
+  | cons y ys ih =>
+    simp only [List.foldl_cons]
+    rw [ih, mem_keys_omInsert]
+    simp only [omKeys, List.map_cons, List.mem_cons]
+    constructor
+    · rintro ((h | h) | h)
+      · exact Or.inr (Or.inl h)
+      · exact Or.inl h
+      · exact Or.inr (Or.inr h)
+    · rintro (h | h | h)
+      · exact Or.inl (Or.inr h)
+      · exact Or.inl (Or.inl h)
+      · exact Or.inr h
+
+/-- Further well-formedness facts the shared name space guarantees (kinds of names are
+    disjoint; `to_sort` and `containers` agree outside variables/parameters). -/
+structure WFd (c : Content) : Prop extends WFc c where
+  contOfNonVP : ∀ k, isVP c k = false → c.containers.lookup k = c.toSort.lookup k
+  rsNotVP : ∀ k, isRS c k = true → isVP c k = false
+  vpSelf : ∀ k comp, isVP c k = true → c.toSort.lookup k = some comp → comp.provided k = [k]
+  derivedIn : ∀ k d, c.derived.lookup k = some d → isVP c k = false → isRS c k = false →
+    c.toSort.lookup k = some (.fn d)
+  keysKinds : ∀ k ∈ omKeys c.toSort,
+    isRS c k = true ∨ isVP c k = true ∨ ∃ d, c.derived.lookup k = some d
+  surOkC : SurOk c.containers
+  iaSorted : ∀ k, isVP c k = true →
+    k ∈ omKeys (plainOf c.vars) ∨ k ∈ omKeys (plainOf c.pars) ∨ k ∈ omKeys c.toSort
+
+theorem lookup_isSome_of_mem_keys {β} {l : List (Name × β)} {k : Name} (h : k ∈ omKeys l) :
+    ∃ v, l.lookup k = some v := by
+  induction l with
+  | nil => simp [omKeys] at h
+  | cons y ys ih =>
+    obtain ⟨k', v'⟩ := y
+    rw [List.lookup_cons]
+    by_cases hk : k = k'
+    · subst hk; exact ⟨v', by simp⟩
+    · have : (k == k') = false := by simpa using hk
+      simp only [this]
+      apply ih
+      simp only [omKeys, List.map_cons, List.mem_cons] at h
+      rcases h with h | h
+      · exact absurd h hk
+      · exact h
+
+/-- **per-state resolution.**  For any supplied state (one value per variable) and time, the
+    environment `_get_args` builds makes every dynamic component (reaction, surrogate, derived
+    quantity not classified as a parameter) equal to its function applied to the values its
+    arguments have in that same environment, and leaves every other binding — `time`, the
+    supplied state, plain parameters, assignment-defined parameters and derived parameters as
+    frozen in the cache — exactly as supplied. -/
+theorem getArgs_consistent {c : Content} (hwf : WFd c) {cache : Cache}
+    (hc : createCache c = .ok cache) (vars : List (Name × Rat))
+    (hv : vars.map (·.1) = omKeys c.vars) (t : Rat) {env : Env}
+    (h : getArgsEnv c cache vars t = .ok env) :
+    (∀ k ∈ cache.dynOrder, ∀ comp, c.containers.lookup k = some comp → comp.Holds k env) ∧
+    (∀ n, n ∉ cache.dynOrder.flatMap (providedOf c.containers) →
+      env.lookup n = (baseEnv cache.allPars vars c.data t).lookup n) := by
+  obtain ⟨dep, _, _, _, _, _, hperm, hschedT⟩ := createCache_consistent hwf.toWFc hc
+  obtain ⟨order, dependent, st, dst, init, extra, _, _, _, _, h5, hcache⟩ := createCache_ok hc
+  obtain ⟨S, D, A, heq, hS, hD, hcov, hdyn, hstat, _, _, hdisj⟩ :=
+    classify_spec c order [] [] (omKeys c.pars) (fun a ha => Or.inl ha)
+  have horder : cache.order = order := by rw [hcache]
+  rw [horder] at hperm hschedT
+  have hdynO : cache.dynOrder = D := by rw [hcache, heq]; simp
+  have hstatO : (classify c order [] [] (omKeys c.pars)).1 = S := by rw [heq]; simp
+  have hallP : cache.allPars = omUnion (plainOf c.pars) extra := by rw [hcache]
+  obtain ⟨hextraK, _⟩ := mapM_get_spec dependent _ _ h5
+  rw [hstatO] at hextraK
+  have hordNd : order.Nodup := hperm.nodup_iff.mpr hwf.keysNodup
+  have hprovNd : (order.flatMap (providedOf c.toSort)).Nodup :=
+    (hperm.flatMap_right _).nodup_iff.mpr hwf.provNodup
+  have hordKeys : ∀ k ∈ order, k ∈ omKeys c.toSort := fun k hk => hperm.mem_iff.mp hk
+  -- facts about dynamic names
+  have hDnotVP : ∀ k ∈ D, isVP c k = false := by
+    intro k hk
+    rcases hdyn k hk with h1 | ⟨h1, _⟩
+    · exact hwf.rsNotVP k h1
+    · exact h1
+  have hDlookup : ∀ k ∈ D, c.containers.lookup k = c.toSort.lookup k :=
+    fun k hk => hwf.contOfNonVP k (hDnotVP k hk)
+  -- static names provide themselves and are bound as variable or parameter
+  have hSself : ∀ k ∈ S, providedOf c.toSort k = [k] := by
+    intro k hk
+    obtain ⟨v, hv'⟩ := lookup_isSome_of_mem_keys (hordKeys k (hS.subset hk))
+    obtain ⟨hrs, hk2⟩ := hstat k hk
+    rcases hk2 with hvp | ⟨d, hd, _⟩
+    · simp only [providedOf, hv']
+      exact hwf.vpSelf k v hvp hv'
+    · by_cases hvp : isVP c k = true
+      · simp only [providedOf, hv']
+        exact hwf.vpSelf k v hvp hv'
+      · have := hwf.derivedIn k d hd (by simpa using hvp) hrs
+        simp [providedOf, this, Comp.provided]
+  let av2 := omKeys cache.allPars ++ omKeys vars ++ omKeys c.data ++ ["time"]
+  have hSbound : ∀ k ∈ S, k ∈ av2 := by
+    intro k hk
+    by_cases hkv : k ∈ omKeys c.vars
+    · have : k ∈ omKeys vars := by simpa [omKeys, hv] using hkv
+      simp [av2, this]
+    · have : k ∈ omKeys extra := by
+        simp only [omKeys]
+        rw [hextraK]
+        exact List.mem_filter.mpr ⟨hk, by simpa [List.contains_iff_mem] using hkv⟩
+      have : k ∈ omKeys cache.allPars := by
+        rw [hallP, mem_keys_omUnion]; exact Or.inr this
+      simp [av2, this]
+  have havail : ∀ r ∈ c.available, r ∈ av2 := by
+    intro r hr
+    simp only [Content.available, List.mem_append, List.mem_singleton] at hr
+    rcases hr with ((h1 | h1) | h1) | h1
+    · have : r ∈ omKeys cache.allPars := by rw [hallP, mem_keys_omUnion]; exact Or.inl h1
+      simp [av2, this]
+    · have : r ∈ omKeys vars := by
+        have hsub : r ∈ omKeys c.vars := by
+          simp only [omKeys, plainOf, List.mem_map, List.mem_filterMap] at h1 ⊢
+          obtain ⟨kv, ⟨kv0, hkv0, hsome⟩, rfl⟩ := h1
+          refine ⟨kv0, hkv0, ?_⟩
+          cases hval : kv0.2 <;> simp [hval] at hsome
+          rw [← hsome]
+        simpa [omKeys, hv] using hsub
+      simp [av2, this]
+    · simp [av2, h1]
+    · simp [av2, h1]
+  have hfilter : order.filter (fun k => D.contains k) = D := filter_contains_of_sublist hD hordNd
+  have hschedD : SchedT c.containers av2 D := by
+    rw [← hfilter]
+    apply schedT_filter c.toSort c.containers (fun k => D.contains k) _ _ hschedT av2
+    · intro k _ hP
+      exact hDlookup k (by simpa using hP)
+    · intro k hk hP p hp
+      have hkD : k ∉ D := by simpa using hP
+      have hkS : k ∈ S := by
+        rcases hcov k hk with h1 | h1 | ⟨h1, h2, h3⟩
+        · exact h1
+        · exact absurd h1 hkD
+        · exfalso
+          rcases hwf.keysKinds k (hordKeys k hk) with h4 | h4 | ⟨d, h4⟩
+          · rw [h1] at h4; cases h4
+          · rw [h2] at h4; cases h4
+          · rw [h3] at h4; cases h4
+      rw [hSself k hkS] at hp
+      simp at hp; subst hp
+      exact hSbound p hkS
+    · exact havail
+  have hprovEq : D.flatMap (providedOf c.containers) = D.flatMap (providedOf c.toSort) :=
+    flatMap_congr' _ _ D (fun k hk => by simp [providedOf, hDlookup k hk])
+  have hDnd : (D.flatMap (providedOf c.containers)).Nodup := by
+    rw [hprovEq]
+    exact (sublist_flatMap _ hD).nodup hprovNd
+  have hDfresh : ∀ p ∈ D.flatMap (providedOf c.containers),
+      (baseEnv cache.allPars vars c.data t).lookup p = none := by
+    intro p hp
+    apply baseEnv_lookup_none
+    rw [hprovEq] at hp
+    obtain ⟨k, hkD, hpk⟩ := List.mem_flatMap.mp hp
+    have hkO : k ∈ order := hD.subset hkD
+    have hpAll : p ∈ (omKeys c.toSort).flatMap (providedOf c.toSort) :=
+      List.mem_flatMap.mpr ⟨k, hordKeys k hkO, hpk⟩
+    have hnotAvail := hwf.provFresh p hpAll
+    -- a static name that is also provided by the dynamic `k` would have two providers
+    have hnotS : p ∉ S := by
+      intro hpS
+      have hpO : p ∈ order := hS.subset hpS
+      have : k = p := nodup_flatMap_inj order hprovNd k hkO p hpO p hpk
+        (by rw [hSself p hpS]; simp)
+      subst this
+      exact hdisj hordNd k hpS hkD
+    have hnotVP : isVP c p = false := by
+      cases hvp : isVP c p with
+      | false => rfl
+      | true =>
+        exfalso
+        rcases hwf.iaSorted p hvp with h1 | h1 | h1
+        · exact hnotAvail (by simp [Content.available, h1])
+        · exact hnotAvail (by simp [Content.available, h1])
+        · -- p is itself a sorted component and a variable/parameter: it is static
+          have hpO : p ∈ order := hperm.mem_iff.mpr h1
+          rcases hcov p hpO with h2 | h2 | ⟨_, h2, _⟩
+          · exact hnotS h2
+          · have := hDnotVP p h2
+            rw [hvp] at this; cases this
+          · rw [hvp] at h2; cases h2
+    simp only [Content.available, List.mem_append, List.mem_singleton, not_or] at hnotAvail
+    simp only [List.mem_append, List.mem_singleton, not_or]
+    refine ⟨⟨⟨?_, ?_⟩, hnotAvail.1.2⟩, hnotAvail.2⟩
+    · rw [hallP, mem_keys_omUnion]
+      intro hmem
+      rcases hmem with h1 | h1
+      · exact hnotAvail.1.1.1 h1
+      · simp only [omKeys] at h1
+        rw [hextraK] at h1
+        exact hnotS (List.mem_filter.mp h1).1
+    · intro hmem
+      have : p ∈ omKeys c.vars := by simpa [omKeys, hv] using hmem
+      have : isVP c p = true := by
+        simp [isVP, List.contains_iff_mem, this]
+      rw [hnotVP] at this; cases this
+  obtain ⟨env', he, hframe, hholds, _⟩ := evalInOrder_consistent c.containers hwf.surOkC D av2
+    (baseEnv cache.allPars vars c.data t) hschedD
+    (fun r hr => baseEnv_lookup_some _ _ _ t r hr) hDnd hDfresh
+  have henv : env = env' := by
+    unfold getArgsEnv at h
+    rw [hdynO] at h
+    have : evalInOrder c.containers D (baseEnv cache.allPars vars c.data t) = .ok env := h
+    rw [he] at this
+    cases this; rfl
+  subst henv
+  rw [hdynO]
+  exact ⟨hholds, hframe⟩
+
+end Mxl
